@@ -254,6 +254,9 @@ def run_sequence(c, tmp, rng, idx):
             elif kind == "cases":
                 _, who, cases, v, pol, sync = op
                 hs[who].runner.fn = functools.partial(fn_version, v)
+                if rng.random() < 0.4:
+                    # as mappings; every other one spells its keys in the opposite order
+                    cases = [{"a": x, "b": y} if t % 2 == 0 else {"b": y, "a": x} for t, (x, y) in enumerate(cases)]
                 hs[who].harvest_cases(cases, overwrite=pol, sync=sync, verbosity=0, **ek)
             elif kind == "add_ds":
                 _, who, a, b, v, pol, sync = op
